@@ -14,7 +14,7 @@ ASSUMPTIONS = ['how & ranks against + and * is not stated: & operands are atoms,
                'a zero divisor under a comparison or & is C08\'s subject: such cases are excluded and counted',
                'reference = native evaluation of the generating tree (Python int/float operators in tree order, so results are bit-identical)']
 
-VARS = {'v_a': 3, 'v_b': 7, 'v_c': 0.5, 'v_d': 12, 'v_e': 2.25, 'v_f': 1, 'v_one': 1, 'v_zero': 0}
+VARS = {'v_a': 3, 'v_b': 7, 'v_c': 0.5, 'v_d': 12, 'v_e': 2.25, 'v_f': 1, 'v_one': 1, 'v_zero': 0, 'v_txt': 'xyz'}
 CELLS = {'B2': 5, 'C3': 11, 'D4': 0.25, 'AA10': 4}
 def _strict(f):
     def g(*a):
@@ -59,7 +59,7 @@ def _chain(xs):
 
 @st.composite
 def top_tree(draw):
-    kind = draw(st.sampled_from(['arith', 'arith', 'cmp', 'amp', 'ampcmp', 'callcmp', 'cmpcmp']))
+    kind = draw(st.sampled_from(['arith', 'arith', 'cmp', 'amp', 'ampcmp', 'callcmp', 'cmpcmp', 'blankcmp', 'texterr']))
     if kind == 'arith':
         t = draw(arith_tree)
         if draw(st.booleans()):
@@ -75,6 +75,22 @@ def top_tree(draw):
         t = draw(amp_chain())
     elif kind == 'ampcmp':
         t = ['bin', draw(st.sampled_from(gf.CMP)), draw(amp_chain()), draw(st.one_of(amp_chain(), amp_operand))]
+    elif kind == 'blankcmp':
+        # a blank (an unanswered cell, NULL) compared with numbers of either sign: it counts as 0 on whichever side it stands
+        num = draw(st.one_of(int_leaf, int_leaf.map(lambda l: ['neg', l]), st.sampled_from([['num', '0'], ['neg', ['num', '1']], ['neg', ['dec', '0.5']], ['bin', '-', ['num', '1'], ['num', '3']]])))
+        b = draw(blank_leaf)
+        op = draw(st.sampled_from(gf.CMP))
+        t = ['bin', op, b, num] if draw(st.booleans()) else ['bin', op, num, b]
+        if draw(st.booleans()):
+            t = ['bin', '&', ['paren', t], ['str', 'x', '"']]
+    elif kind == 'texterr':
+        # text that is no number on one side of an arithmetic operator, an error value on the other: the error is the value
+        txt = draw(st.sampled_from([['paren', ['bin', '&', ['str', 'a', '"'], ['str', 'b', '"']]], ['str', 'abc', '"'], ['var', 'v_txt']]))
+        e = ['paren', ['bin', '/', draw(int_leaf), ['bin', '-', ['num', '2'], ['num', '2']]]]
+        op = draw(st.sampled_from(gf.ARITH))
+        t = ['bin', op, txt, e] if draw(st.booleans()) else ['bin', op, e, txt]
+        if draw(st.booleans()):
+            t = ['bin', draw(st.sampled_from(gf.ARITH)), t, draw(int_leaf)]
     elif kind == 'cmpcmp':
         # a parenthesised comparison (a logical) compared with a small number, next to the same comparison between the numbers themselves
         small = st.sampled_from([['num', '0'], ['num', '1'], ['num', '2'], ['dec', '1.0'], ['dec', '0.0'], ['var', 'v_one'], ['var', 'v_zero']])
